@@ -31,7 +31,11 @@
     else.  This is also what bash 5.2 does.
   * Command substitution: "Subshells spawned to execute command substitutions inherit the value
     of the `-e` option from the parent shell.  When not in posix mode, bash clears the `-e` option
-    in such subshells."
+    in such subshells" — unless `shopt -s inherit_errexit`: "command substitution inherits the
+    value of the errexit option, instead of unsetting it in the subshell environment".  The
+    interpreter documents (interp/api.go, `bashOptsTable`) that it always behaves as with
+    `inherit_errexit` on, so `BashSem` is bash *with `shopt -s inherit_errexit`*, and the bash
+    oracle is run that way.
   * `ERR` trap: "executed whenever a pipeline, a list, or a compound command returns a non-zero
     exit status, subject to the following conditions.  The ERR trap is not executed if the failed
     command is part of … [the same conditions as `-e`]"; "the ERR trap is not inherited by shell
@@ -226,8 +230,9 @@ def sem : Nat → Ctx → Task → Env → Res
       some (.norm, { e with status := if (lookupVar e.vars x == v) != neg then 0 else 1 })
     | .assign x w => some (.norm, { e with status := 0, vars := (x, expandWord e.vars e.status w) :: e.vars })
     | .assignSub x p =>
-      -- command substitution: a subshell with `-e` cleared; the assignment returns its status
-      match sem n { k with depth := 0 } (.sub p) { subEnv e [] with errexit := false } with
+      -- command substitution: a subshell (`inherit_errexit`: `-e` is inherited); the assignment
+      -- returns its status
+      match sem n { k with depth := 0 } (.sub p) (subEnv e []) with
       | none => none
       | some (_, e1) => some (.norm, { e with status := e1.status, vars := (x, stripNl e1.out) :: e.vars })
     | .exit none => some (.exit, if k.inTrap then { e with status := k.trapSt } else e)
